@@ -449,70 +449,88 @@ Qed.
 Lemma parse_confined i tok : confined disc_impl W_all i (prog_of_trace (gmap_impl i) tok parse_tags) = true.
 Proof. reflexivity. Qed.
 
-(* ------------------------------------------------------------------ FAITHFUL (current code): the registry is confined *)
-(* a trace never reads the registry before the call has published its own (visit_Start does set_current_registry first) *)
-Fixpoint reg_wf (seen : bool) (tr : list tag) : bool :=
+(* ------------------------------------------------------------------ FAITHFUL (current code): registry and dataset_output confined *)
+(* a trace never reads the registry before the call has published its own (visit_Start does set_current_registry first), nor
+   the output-dataset name before the call has written its own *)
+Fixpoint cells_wf (sreg sout : bool) (tr : list tag) : bool :=
   match tr with
   | [] => true
-  | TRegSet :: r => reg_wf true r
-  | TRegGet :: r => seen && reg_wf seen r
-  | _ :: r => reg_wf seen r
+  | TRegSet :: r => cells_wf true sout r
+  | TRegGet :: r => sreg && cells_wf sreg sout r
+  | TDsOutSet :: r | TDsOutClear :: r => cells_wf sreg true r
+  | TRaise :: r => sout && cells_wf sreg sout r
+  | _ :: r => cells_wf sreg sout r
   end.
 
 Lemma gmap_impl_reg i : gmap_impl i GRegistry = gmap_spec i GRegistry.
 Proof. reflexivity. Qed.
+Lemma gmap_impl_out i : gmap_impl i GDsOut = gmap_spec i GDsOut.
+Proof. reflexivity. Qed.
 
-Definition impl_ready (i : tid) (seen : bool) (a : ast) : Prop :=
-  a_held a = [] /\ (seen = true -> In (gmap_impl i GRegistry) (a_fresh a)).
+Definition impl_ready (i : tid) (sreg sout : bool) (a : ast) : Prop :=
+  a_held a = [] /\ (sreg = true -> In (gmap_impl i GRegistry) (a_fresh a)) /\ (sout = true -> In (gmap_impl i GDsOut) (a_fresh a)).
 
-Lemma impl_tag_ok i tok a seen t :
-  impl_ready i seen a ->
-  (match t with TRegGet => seen = true | _ => True end) ->
+Definition next_reg (t : tag) (b : bool) : bool := match t with TRegSet => true | _ => b end.
+Definition next_out (t : tag) (b : bool) : bool := match t with TDsOutSet | TDsOutClear => true | _ => b end.
+
+Lemma impl_tag_ok i tok a sreg sout t :
+  impl_ready i sreg sout a ->
+  (match t with TRegGet => sreg = true | TRaise => sout = true | _ => True end) ->
   ok_from disc_spec W_reg i a (steps_of_tag (gmap_impl i) tok t) = true /\
-  impl_ready i (match t with TRegSet => true | _ => seen end) (fold_left (ast_step disc_spec) (steps_of_tag (gmap_impl i) tok t) a).
+  impl_ready i (next_reg t sreg) (next_out t sout) (fold_left (ast_step disc_spec) (steps_of_tag (gmap_impl i) tok t) a).
 Proof.
-  intros [Hh Hr] Ht.
+  intros [Hh [Hr Ho]] Ht.
   assert (Eown : disc_spec (gmap_impl i GRegistry) = Owned i).
   { rewrite gmap_impl_reg. apply disc_spec_tl; unfold GRegistry; lia. }
+  assert (Eown2 : disc_spec (gmap_impl i GDsOut) = Owned i).
+  { rewrite gmap_impl_out. apply disc_spec_tl; unfold GDsOut; lia. }
   assert (EW : W_reg (gmap_impl i GRegistry) = true).
   { unfold W_reg, gmap_impl, GRegistry, GParse. simpl. reflexivity. }
+  assert (EW2 : W_reg (gmap_impl i GDsOut) = true).
+  { unfold W_reg, gmap_impl, GDsOut, GParse. simpl. reflexivity. }
   assert (Enl : locked_by disc_spec PL (gmap_impl i GRegistry) = false).
   { unfold locked_by. rewrite Eown. reflexivity. }
-  destruct a as [held fresh]. simpl in Hh. subst held. simpl in Hr. unfold impl_ready.
-  destruct t; unfold steps_of_tag.
-  - (* TParse *) cbn -[gmap_impl]. split; [reflexivity|]. split; [reflexivity|].
-    intros Hs. apply filter_In. split; [apply Hr; exact Hs | rewrite Enl; reflexivity].
+  assert (Enl2 : locked_by disc_spec PL (gmap_impl i GDsOut) = false).
+  { unfold locked_by. rewrite Eown2. reflexivity. }
+  destruct a as [held fresh]. simpl in Hh. subst held. simpl in Hr, Ho. unfold impl_ready.
+  destruct t; unfold steps_of_tag; cbn [next_reg next_out].
+  - (* TParse *) cbn -[gmap_impl]. split; [reflexivity|]. split; [reflexivity|]. split; intros Hs; apply filter_In.
+    + split; [apply Hr; exact Hs | rewrite Enl; reflexivity].
+    + split; [apply Ho; exact Hs | rewrite Enl2; reflexivity].
   - (* TRegSet *) cbn -[gmap_impl disc_spec W_reg]. rewrite EW. unfold may_access. rewrite Eown, Nat.eqb_refl. simpl.
-    split; [reflexivity|]. split; [reflexivity|]. intros _. left. reflexivity.
+    split; [reflexivity|]. split; [reflexivity|]. split; [intros _; left; reflexivity | intros Hs; right; apply Ho; exact Hs].
   - (* TRegGet *) cbn -[gmap_impl disc_spec W_reg]. rewrite EW. unfold may_access. rewrite Eown, Nat.eqb_refl.
-    pose proof (proj2 (mem_In _ _) (Hr Ht)) as Hm. unfold mem in Hm. rewrite Hm. split; [reflexivity|]. split; [reflexivity | exact Hr].
-  - (* TVcReset *) cbn. split; [reflexivity|]. split; [reflexivity|]. intros Hs. simpl. right. right. apply Hr. exact Hs.
-  - (* TVcDs *) cbn. split; [reflexivity|]. split; [reflexivity|]. intros Hs. simpl. right. apply Hr. exact Hs.
-  - (* TVcDc *) cbn. split; [reflexivity|]. split; [reflexivity|]. intros Hs. simpl. right. apply Hr. exact Hs.
-  - (* TTpSet *) cbn. split; [reflexivity|]. split; [reflexivity|]. intros Hs. simpl. right. apply Hr. exact Hs.
-  - (* TTpGet *) cbn. split; [reflexivity|]. split; [reflexivity | exact Hr].
-  - (* TDsOutSet *) cbn. split; [reflexivity|]. split; [reflexivity|]. intros Hs. simpl. right. apply Hr. exact Hs.
-  - (* TDsOutClear *) cbn. split; [reflexivity|]. split; [reflexivity|]. intros Hs. simpl. right. apply Hr. exact Hs.
-  - (* TRaise *) cbn. split; [reflexivity|]. split; [reflexivity | exact Hr].
+    pose proof (proj2 (mem_In _ _) (Hr Ht)) as Hm. unfold mem in Hm. rewrite Hm. split; [reflexivity|]. split; [reflexivity | split; assumption].
+  - (* TVcReset *) cbn. split; [reflexivity|]. split; [reflexivity|]. split; intros Hs; simpl; right; right; [apply Hr | apply Ho]; exact Hs.
+  - (* TVcDs *) cbn. split; [reflexivity|]. split; [reflexivity|]. split; intros Hs; simpl; right; [apply Hr | apply Ho]; exact Hs.
+  - (* TVcDc *) cbn. split; [reflexivity|]. split; [reflexivity|]. split; intros Hs; simpl; right; [apply Hr | apply Ho]; exact Hs.
+  - (* TTpSet *) cbn. split; [reflexivity|]. split; [reflexivity|]. split; intros Hs; simpl; right; [apply Hr | apply Ho]; exact Hs.
+  - (* TTpGet *) cbn. split; [reflexivity|]. split; [reflexivity | split; assumption].
+  - (* TDsOutSet *) cbn -[gmap_impl disc_spec W_reg]. rewrite EW2. unfold may_access. rewrite Eown2, Nat.eqb_refl. simpl.
+    split; [reflexivity|]. split; [reflexivity|]. split; [intros Hs; right; apply Hr; exact Hs | intros _; left; reflexivity].
+  - (* TDsOutClear *) cbn -[gmap_impl disc_spec W_reg]. rewrite EW2. unfold may_access. rewrite Eown2, Nat.eqb_refl. simpl.
+    split; [reflexivity|]. split; [reflexivity|]. split; [intros Hs; right; apply Hr; exact Hs | intros _; left; reflexivity].
+  - (* TRaise *) cbn -[gmap_impl disc_spec W_reg]. rewrite EW2. unfold may_access. rewrite Eown2, Nat.eqb_refl.
+    pose proof (proj2 (mem_In _ _) (Ho Ht)) as Hm. unfold mem in Hm. rewrite Hm. split; [reflexivity|]. split; [reflexivity | split; assumption].
 Qed.
 
-Lemma impl_trace_ok i tok : forall tr a seen, impl_ready i seen a -> reg_wf seen tr = true ->
+Lemma impl_trace_ok i tok : forall tr a sreg sout, impl_ready i sreg sout a -> cells_wf sreg sout tr = true ->
   ok_from disc_spec W_reg i a (prog_of_trace (gmap_impl i) tok tr) = true.
 Proof.
-  induction tr as [|t r IH]; intros a seen Ha Hwf; [reflexivity|].
+  induction tr as [|t r IH]; intros a sreg sout Ha Hwf; [reflexivity|].
   unfold prog_of_trace. simpl. rewrite ok_from_app.
-  assert (Ht : match t with TRegGet => seen = true | _ => True end).
-  { destruct t; auto. simpl in Hwf. apply andb_true_iff in Hwf. exact (proj1 Hwf). }
-  destruct (impl_tag_ok i tok a seen t Ha Ht) as [Hok1 Hrdy].
-  rewrite Hok1. simpl. apply (IH _ (match t with TRegSet => true | _ => seen end)); [exact Hrdy|].
-  destruct t; simpl in Hwf; auto. apply andb_true_iff in Hwf. exact (proj2 Hwf).
+  assert (Ht : match t with TRegGet => sreg = true | TRaise => sout = true | _ => True end).
+  { destruct t; auto; simpl in Hwf; apply andb_true_iff in Hwf; exact (proj1 Hwf). }
+  destruct (impl_tag_ok i tok a sreg sout t Ha Ht) as [Hok1 Hrdy].
+  rewrite Hok1. simpl. apply (IH _ (next_reg t sreg) (next_out t sout)); [exact Hrdy|].
+  destruct t; simpl in Hwf; simpl; auto; apply andb_true_iff in Hwf; exact (proj2 Hwf).
 Qed.
 
-Lemma impl_trace_confined i tok tr : reg_wf false tr = true ->
+Lemma impl_trace_confined i tok tr : cells_wf false false tr = true ->
   confined disc_spec W_reg i (prog_of_trace (gmap_impl i) tok tr) = true.
 Proof.
-  intros H. unfold confined. apply (impl_trace_ok i tok tr _ false); [|exact H].
-  split; [reflexivity | discriminate].
+  intros H. unfold confined. apply (impl_trace_ok i tok tr _ false false); [|exact H].
+  split; [reflexivity | split; discriminate].
 Qed.
 
 (* every value written to a watched global by a skeleton is a constant token *)
